@@ -5541,7 +5541,7 @@ class Symbol:
             # Display bool values as n, y in the warning
             log.note(
                 "the value {} is invalid for {}, which has type {} -- assignment ignored".format(
-                    BOOL_TO_STR[value] if value in BOOL_TO_STR else f"'{value}'",
+                    BOOL_TO_STR[value] if value in BOOL_TO_STR else escape(f"'{value}'"),
                     escape(self.name_and_loc),
                     TYPE_TO_STR[self.orig_type],
                 )
